@@ -365,7 +365,7 @@ def run(ctx):
     corpus = json.load(open(os.path.join("corpus", "C10", "cases.json")))
     for c in corpus:
         seq_cases.append({"n": c["n"], "ops": c["ops"], "origin": "corpus"})
-    for i in range(700 if ctx.thorough else 110):
+    for i in range(700 if ctx.thorough else 90):
         malformed = rng.random() < 0.15
         c = gen_seq_case(rng, malformed)
         c["origin"] = "malformed" if malformed else "structured"
@@ -373,7 +373,7 @@ def run(ctx):
     for i, c in enumerate(seq_cases):
         c["id"] = i
     tree_cases = []
-    for i in range(1500 if ctx.thorough else 250):
+    for i in range(1200 if ctx.thorough else 150):
         malformed = rng.random() < 0.2
         c = gen_tree_case(rng, malformed)
         c["id"] = i
@@ -391,7 +391,7 @@ def run(ctx):
             os.remove(p)
     ctx.log("running %d sequences, %d tree cases and the race rounds on real actors" % (len(seq_cases), len(tree_cases)))
     rc, out = ctx.go_test("actor", "^TestVerifC10", ["zz_verif_C10_test.go"],
-                          env={"VERIF_C10_ROUNDS": "400" if ctx.thorough else "45"}, race=False)
+                          env={"VERIF_C10_ROUNDS": "1500" if ctx.thorough else "150"}, race=False)
     ctx.log("go harness done rc=%d" % rc)
     souts = read_jsonl(os.path.join(ctx.work, "c10_out.jsonl"))
     touts = read_jsonl(os.path.join(ctx.work, "c10_tree_out.jsonl"))
